@@ -1091,7 +1091,11 @@ async fn run_generated(resolver: &VerifResolver, kind: Tk, rng: &mut Rng, thorou
         return run_timeouts(resolver, kind, rng, case).await;
     }
     let cfg = rng.below(4);
-    let noisy = rng.chance(15);
+    // QUIC tells a dialed connection from an accepted one by its `pending_dials` entry (TCP and
+    // WebSocket carry the endpoint inside the negotiated connection), which an owner that uses one id
+    // twice confuses; the model's endpoint direction is that of TCP, and coincides with QUIC's for an
+    // owner that draws its ids (invariant c_conn_dial): QUIC cases keep to such owners
+    let noisy = rng.chance(15) && kind != Tk::Quic;
     let n = if thorough { rng.range(8, 70) } else { rng.range(5, 40) };
     let mut w = World::new(resolver, kind, cfg).await;
     let mut k = Know::default();
